@@ -156,6 +156,12 @@ func (g *genState) next(p *scriptProfile) {
 		if rng.Intn(3) == 0 {
 			// honest content in the other encodings the wire format allows
 			enc = encoding{att: attChoices[rng.Intn(len(attChoices))], extra: rng.Intn(2) == 0}
+			if two && enc.att == "garbage" {
+				// an unparsable attached key ends the session; with two Sends pending both would
+				// race for the slot after the re-open (scheduler dependent, not observable
+				// deterministically): same restriction as for every other session-ending operation
+				enc.att = ""
+			}
 		}
 		m := r.tab.craft(cls, g.body(), seq, rng.Intn(512), enc)
 		if sy := r.tab.lookup(m); sy != nil {
